@@ -80,6 +80,23 @@ pub fn attrs() -> Model {
     m
 }
 
+/// A node with more attributes than fit in a 32-bit "seen" mask: the attribute the operator
+/// reads sits at index 35, behind attributes the reader ignores.
+pub fn manyattrs() -> Model {
+    let mut sm = Node::new("Softmax", &["x"], &["s"]);
+    for i in 0..35 {
+        sm = sm.attr(&format!("junk_{i}"), Attr::Int(i as i64));
+    }
+    sm = sm.attr("axis", Attr::Int(-1));
+    let mut lr = Node::new("LeakyRelu", &["s"], &["y"]);
+    for i in 0..33 {
+        lr = lr.attr(&format!("pad_{i}"), Attr::Float(i as f32));
+    }
+    lr = lr.attr("alpha", Attr::Float(0.25));
+    let g = Graph { name: "manyattrs".into(), nodes: vec![sm, lr], initializers: vec![], inputs: vec![vi("x", dtype::FLOAT, &[2, 3])], outputs: vec![vi("y", dtype::FLOAT, &[2, 3])], value_info: vec![] };
+    Model::new(g)
+}
+
 pub fn ctrl() -> Model {
     let then_g = Graph {
         name: "then".into(),
@@ -220,5 +237,6 @@ pub fn all() -> Vec<(&'static str, Model)> {
         ("meta", meta()),
         ("external", external()),
         ("wide", wide()),
+        ("manyattrs", manyattrs()),
     ]
 }
